@@ -344,6 +344,41 @@ theorem C19_converted_lib_earlier_candidates (path : Str) (file : MappedFile) (r
   | none => simp
   | some c => cases c <;> simp
 
+/-! ## `--unstable-presymbolicate` (repaired defect C19-presym-badcodeid, `fix:` 4dd060e3) -/
+
+/-- **Presymbolication never panics and registers the recorded identity.** For *every* profile — whatever text its
+libraries carry as code id — the library infos `samply import --unstable-presymbolicate` builds from the used
+libraries exist (no panic), and each of them is the reader's view of that library (`LibInfo.view`: every field as
+recorded, the code id as the typed id its text denotes, none if it denotes none) except that `name` is the debug name
+(symbol_precog.rs:347). No hypothesis on the code ids: the repair is what makes this provable, see
+`C19_legacy_counterexample`. -/
+theorem C19_presym_registers_recorded_identity (p : Profile) :
+    presymLibs p = some (p.usedLibs.map fun l => { l.view with name := some l.debugName }) := by
+  unfold presymLibs
+  induction p.usedLibs with
+  | nil => rfl
+  | cons l ls ih =>
+    rw [List.mapM_cons, ih]
+    simp [presymLib, presymLibWith, presymCodeId, LibInfo.view]
+
+/-- Before the repair the same step panicked (`expect("bad codeid")`) exactly when a used library's code id text is
+rejected by `CodeId::from_str`; every ELF build id of at most 4 bytes is such a text. -/
+theorem C19_legacy_panics_on_tiny_build_id (b : List Nat) (h : b.length ≤ 4) :
+    presymCodeIdLegacy (some (elfCodeText b)) = none := by
+  have hl := hexLower_length b
+  have h17 : (hexLower b).length ≤ 17 := by omega
+  have h9 : (hexLower b).length < 9 := by omega
+  simp [presymCodeIdLegacy, elfCodeText, CodeId.toStr, CodeId.fromStr, peFromStr, h17, h9]
+
+/-- **Legacy counterexample** (pre-fix behaviour kept as `presymLibsLegacy`): the profile whose only used library is
+what the converter lists for `/a` with the 4-byte build id `01020304` made the import panic; the repaired step
+registers it without a code id. -/
+theorem C19_legacy_counterexample :
+    presymLibsLegacy ⟨[convertLib [47, 97] (DebugId.fromIdentifierLE [1, 2, 3, 4]) (some [1, 2, 3, 4])], 1⟩ = none ∧
+    (presymLibs ⟨[convertLib [47, 97] (DebugId.fromIdentifierLE [1, 2, 3, 4]) (some [1, 2, 3, 4])], 1⟩).map
+      (fun infos => infos.map (·.codeId)) = some [none] := by
+  decide
+
 /-! ## non-vacuity: the hypotheses are satisfiable by non-trivial inputs, the excluded points are real -/
 
 /-- the converter's library info for `/usr/lib/libfoo.so` with a 20-byte build id -/
